@@ -1639,7 +1639,9 @@ func (t *Topic) thisUserSub(sess *Session, pkt *ClientComMessage, asUid types.Ui
 				// User wants default access mode.
 				userData.modeWant = t.accessFor(asLvl)
 			} else {
-				userData.modeWant = modeWant
+				// Ownership cannot be requested by a new subscriber: it would become effective,
+				// without the transfer bookkeeping, as soon as the owner offers it.
+				userData.modeWant = modeWant &^ types.ModeOwner
 			}
 		}
 
